@@ -47,6 +47,8 @@ def o1_update(ctx, role, lvl, n, frames=1, tr=None, first=None, relay=False):
             to = payload[2] | (payload[3] << 8)
             if isinstance(first, int):  # quick tier: a multicast-addressed frame of the given type from an unassigned node
                 ctx.assume(s_and(to == 0o100, (payload[0] | (payload[1] << 8)) == 0o4444, payload[6] == first))
+            elif isinstance(first, list):  # [type, origin]: a frame of that type addressed to this node from that origin
+                ctx.assume(s_and(to == addr, (payload[0] | (payload[1] << 8)) == first[1], payload[6] == first[0]))
             else:
                 ctx.assume(s_or(to == 0o100, to == addr))
         radio.inject_rx(ctx.int("pipe%d" % f if frames > 1 else "pipe", 0, 5), blist(payload))
@@ -112,6 +114,8 @@ def jobs(tier):
     # sequences of two frames read in one update() pass (state carried from the first to the second)
     for t in (195, 194, 1):
         out.append(Job("O1-update-two-frames", o1_update, dict(role="master", lvl=0, n=8, frames=2, first=t), cost=400, shards=6))
+    # ... and an address request relayed from a level-2 node (the reply awaits a NETWORK_ACK: the second frame is read meanwhile)
+    out.append(Job("O1-update-two-frames", o1_update, dict(role="master", lvl=0, n=8, frames=2, first=[195, 0o12]), cost=400, shards=6))
     if tier == "thorough":
         for role in ROLES:
             out.append(Job("O1-update-two-frames", o1_update, dict(role=role, lvl=0 if role == "master" else 2, n=8, frames=2, first="consumed"),
@@ -123,7 +127,7 @@ def jobs(tier):
 
 META = {
     "bounds": {"quick": "O1: 4 roles, 3 levels each (symbolic digits), payload lengths from {0,1,7,8,9,10,12,32} (six on the master), all payload bytes "
-                        "symbolic, pipe symbolic, one symbolic outcome per transmitted packet, master with 2 arbitrary leases; on the master also two-frame sequences whose first frame is a multicast-addressed frame of type 195 / 194 / 1 from 0o4444 (symbolic id / reserved) and whose second frame is arbitrary; "
+                        "symbolic, pipe symbolic, one symbolic outcome per transmitted packet, master with 2 arbitrary leases; on the master also two-frame sequences whose first frame is a multicast-addressed frame of type 195 / 194 / 1 from 0o4444, or an address request relayed from 0o12 (symbolic id / reserved), and whose second frame is arbitrary; "
                         "O2: a symbolic in [-65536, 131072] and None",
                "thorough": "every length 0..32; two-frame sequences on every role whose first frame is addressed to the multicast address or the node itself"},
     "outside": ["sequences of more than 2 frames; two-frame sequences whose first frame is routed elsewhere (update() returns after it)", "lease tables with more than 2 entries (C16 goes to 5)",
